@@ -43,32 +43,63 @@ def evolution_pairs():
     return sorted(d for d in os.listdir(base) if os.path.isdir(os.path.join(base, d)))
 
 
-def build(fixdir):
+ALL_GROUPS = ('shapes', 'annotated', 'client2', 'holes', 'evolution')
+
+
+def build(fixdir, groups=ALL_GROUPS):
+    """compile the requested catalogue groups with the real compiler and check that the generated code imports"""
     from stone.frontend.frontend import specs_to_ir
-    api = specs_to_ir(read_specs('shapes'))
-    _compile(api, 'python_types', ['-p', 'catgen'], os.path.join(fixdir, 'catgen'))
-    api = specs_to_ir(read_specs('shapes'))
-    _compile(api, 'python_client', ['-m', 'catclient', '-c', 'CatClient', '-t', 'catgen'],
-             os.path.join(fixdir, 'catgen'))
-    if os.path.isdir(os.path.join(CAT, 'annotated')):
+    imports = []
+    if 'shapes' in groups:
+        api = specs_to_ir(read_specs('shapes'))
+        _compile(api, 'python_types', ['-p', 'catgen'], os.path.join(fixdir, 'catgen'))
+        api = specs_to_ir(read_specs('shapes'))
+        _compile(api, 'python_client', ['-m', 'catclient', '-c', 'CatClient', '-t', 'catgen'],
+                 os.path.join(fixdir, 'catgen'))
+        imports += ['catgen.cat', 'catgen.cat2', 'catgen.catclient']
+    if 'annotated' in groups:
         api = specs_to_ir(read_specs('annotated'))
         _compile(api, 'python_types', ['-p', 'anngen'], os.path.join(fixdir, 'anngen'))
-    if os.path.isdir(os.path.join(CAT, 'client2')):
+        imports += ['anngen.ann']
+    if 'client2' in groups:
         api = specs_to_ir(read_specs('client2'))
         _compile(api, 'python_types', ['-p', 'cl2gen'], os.path.join(fixdir, 'cl2gen'))
         api = specs_to_ir(read_specs('client2'))
         _compile(api, 'python_client', ['-m', 'cl2client', '-c', 'Cl2Client', '-t', 'cl2gen'],
                  os.path.join(fixdir, 'cl2gen'))
-    if os.path.isdir(os.path.join(CAT, 'holes')):
+        imports += ['cl2gen.class_', 'cl2gen.cl2client']
+    if 'holes' in groups:
         api = specs_to_ir(read_specs('holes'))
         _compile(api, 'python_types', ['-p', 'exgen'], os.path.join(fixdir, 'exgen'))
-    for pair in evolution_pairs():
-        for side in ('a', 'b'):
-            sub = os.path.join('evolution', pair, side)
-            api = specs_to_ir(read_specs(sub))
-            pkg = 'evo_%s_%s' % (pair, side)
-            _compile(api, 'python_types', ['-p', pkg], os.path.join(fixdir, pkg))
+        imports += ['exgen.ex']
+    if 'evolution' in groups:
+        for pair in evolution_pairs():
+            for side in ('a', 'b'):
+                sub = os.path.join('evolution', pair, side)
+                api = specs_to_ir(read_specs(sub))
+                pkg = 'evo_%s_%s' % (pair, side)
+                _compile(api, 'python_types', ['-p', pkg], os.path.join(fixdir, pkg))
+                imports += [pkg + '.evo']
+    # the generated packages must import (clients next to their types)
+    import subprocess
+    code = 'import sys; sys.path.insert(0, %r); import %s' % (fixdir, ', '.join(imports))
+    p = subprocess.run([sys.executable, '-c', code], stdout=subprocess.PIPE, stderr=subprocess.STDOUT,
+                       env=dict(os.environ, PYTHONPATH='/repo'))
+    if p.returncode != 0:
+        raise RuntimeError('generated code does not import: ' + p.stdout.decode('utf-8', 'replace')[-600:])
     return fixdir
+
+
+def build_check(groups=ALL_GROUPS):
+    """replay entry: the catalogue must compile and the generated packages must import"""
+    import shutil
+    import tempfile
+    d = tempfile.mkdtemp(prefix='verif_fix_')
+    try:
+        build(d, groups)
+        return True
+    finally:
+        shutil.rmtree(d, ignore_errors=True)
 
 
 def module(pkg, ns):
